@@ -249,14 +249,22 @@ def w_opts(kind: int, td: int, fb: int, alt: int, verbose: int, sp: int) -> str:
     return _case(rt.sel(kind, 6), rt.of([0, 5, 11], sp), 0, rt.sel(td, 3), rt.sel(fb, 4), 5, rt.sel(alt, 3), 0, rt.sel(verbose, 3))
 
 
-def w_full(kind: int, sp: int, mode: int, td: int, fb: int, top: int, alt: int, pre: int) -> str:
+def w_full_opts(kind: int, sp: int, mode: int, td: int, fb: int) -> str:
     """
-    pre: PARTITION is None or (kind == PARTITION[0] and top == PARTITION[1])
+    pre: PARTITION is None or kind == PARTITION
     pre: 0 <= kind < 6 and 0 <= sp < 22 and 0 <= mode < 8 and 0 <= td < 3 and 0 <= fb < 4
-    pre: 0 <= top < 6 and 0 <= alt < 3 and 0 <= pre < 7
     post: _ == ''
     """
-    return _case(rt.sel(kind, 6), rt.sel(sp, 22), rt.sel(mode, 8), rt.sel(td, 3), rt.sel(fb, 4), rt.sel(top, 6), rt.sel(alt, 3), rt.sel(pre, 7), 0)
+    return _case(rt.sel(kind, 6), rt.sel(sp, 22), rt.sel(mode, 8), rt.sel(td, 3), rt.sel(fb, 4), 5, 0, 0, 0)
+
+
+def w_full_dirs(kind: int, sp: int, fb: int, top: int, alt: int, pre: int) -> str:
+    """
+    pre: PARTITION is None or kind == PARTITION
+    pre: 0 <= kind < 6 and 0 <= sp < 22 and 0 <= fb < 4 and 0 <= top < 6 and 0 <= alt < 3 and 0 <= pre < 7
+    post: _ == ''
+    """
+    return _case(rt.sel(kind, 6), rt.sel(sp, 22), 0, 0, rt.sel(fb, 4), rt.sel(top, 6), rt.sel(alt, 3), rt.sel(pre, 7), 0)
 
 
 PUT_FUNCS = ['trashcli.put.main.main', 'TrashPutCmd.run_put', 'Parser.parse_args', 'Context.trash_each',
@@ -283,8 +291,10 @@ def obligations(tier):
            encodes=PUT_FUNCS, stubs=STUBS, bounds='6 kinds x 3 --trash-dir x 4 fallback x 3 .Trash-uid x 3 -v x 3 spellings'),
     ]
     if tier == 'thorough':
-        parts = [(k, t) for k in range(6) for t in range(6)]
-        obs.append(CH('W_full_product', MOD, 'w_full', timeout=3000, partitions=parts, twin=False, engine='W',
+        obs.append(CH('W_spelling_mode_trashdir_fallback', MOD, 'w_full_opts', timeout=3000, partitions=list(range(6)), twin=False, engine='W',
                       regime='selector', encodes=PUT_FUNCS, stubs=STUBS,
-                      bounds='full product 6 kinds x 22 spellings x 8 modes x 3 trash-dir x 4 fallback x 6 x 3 x 7 states'))
+                      bounds='6 kinds x 22 spellings x 8 modes x 3 --trash-dir x 4 fallback switches (12672 cases)'))
+        obs.append(CH('W_spelling_fallback_dirstates', MOD, 'w_full_dirs', timeout=6000, partitions=list(range(6)), twin=False, engine='W',
+                      regime='selector', encodes=PUT_FUNCS, stubs=STUBS,
+                      bounds='6 kinds x 22 spellings x 4 fallback x 6 .Trash x 3 .Trash-uid x 7 pre-existing states (66528 cases)'))
     return obs
